@@ -467,6 +467,12 @@ def run(ctx, report):
     from .c19 import imm_typing_rule
     imm_typing_rule(ctx, R9)
 
+    # ---------------------------------------------------------------- D11 the trip holds whatever was assembled before (shared with C12.D7)
+    R11 = report.rule('C03.D11', 'assembling and disassembling do not edit the mnemonic / register tables they look up (rows found for one line are the table\'s own lists: filtering '
+                      'builds a new list): the rendering of a byte string assembles back after any earlier call', floor=100)
+    from .c12 import shared_table_rule
+    shared_table_rule(R11, [ctx.mod('ia32_arch'), ctx.mod('parse_ad'), ctx.mod('ia32_att')])
+
     # ---------------------------------------------------------------- D10 brackets around a sized operand keep the size
     R10 = report.rule('C03.D10', 'a bracket production keeps the PTR size of the operand inside it (the renderer writes `call [WORD PTR 4660]`): grammar actions evaluated', floor=2)
     from ..consteval import Evaluator as _Ev10, NotConst as _NC10, PyRaise as _PR10
